@@ -18,7 +18,7 @@ EXPLANATION = (
     '(D4) the stored input matrix of a wrapper is consumed only by triangle views, triangle-aware factorizations, size queries or '
     'element access -- never by a plain product or copy; (D5) each wrapper factorizes with a method adequate for the class of its '
     'matrix (pivoting LU / Bunch-Kaufman for shifted indefinite or general matrices, Cholesky / CG for the positive definite B). '
-    'Does NOT decide backward-stable accuracy of any wrapper; Eigen\'s kernels and its documentation of which template '
+    'Every set_shift (and BKLDLT::compute under it) rebuilds whatever the solve reads: no state of an earlier shift on the same wrapper object survives. Does NOT decide backward-stable accuracy of any wrapper; Eigen\'s kernels and its documentation of which template '
     'argument selects which triangle are trusted.')
 ASSUMPTIONS = ["Eigen's UpLo template arguments select the triangle that is read (Eigen documentation)"]
 
@@ -376,5 +376,9 @@ def run(ctx):
     element_accessor_diagonal_only(ctx)
     from . import c10
     c10.copy_data_triangle(ctx)
+    # the operator after set_shift(sigma) is a function of (matrix, sigma) alone: every set_shift and the factorization it
+    # runs rebuild whatever the solve reads (state of an earlier shift on the same wrapper object must not survive)
+    from . import c06
+    c06.recompute_complete(ctx, only=tuple(k for k in c06.RECOMPUTED if k[1] == 'set_shift' or k == ('Spectra::BKLDLT', 'compute')))
     ctx.require('triangle-option-reaches-every-use', 18)
     ctx.require('assembled-matrix-triangle-typestate', 16)
